@@ -1,7 +1,9 @@
 package props
 
 import (
+	"context"
 	"fmt"
+	"net/http"
 	"strings"
 
 	restful "github.com/emicklei/go-restful/v3"
@@ -9,6 +11,8 @@ import (
 	"verifharness/core"
 	"verifharness/rt"
 )
+
+type c04Key struct{}
 
 func init() {
 	register("C03", c03)
@@ -47,9 +51,13 @@ func routeDominates(a, b rt.Tmpl) bool {
 			if !(a[i].Kind == rt.Lit || (a[i].Kind == rt.VarSuf && a[i].Suf == b[i].Suf)) {
 				return false
 			}
+		case rt.VarPre:
+			if !(a[i].Kind == rt.Lit || (a[i].Kind == rt.VarPre && a[i].Lit == b[i].Lit)) {
+				return false
+			}
 		default:
-			if a[i].Kind == rt.VarSuf {
-				return false // a literal suffix b does not have: shapes differ
+			if a[i].Kind == rt.VarSuf || a[i].Kind == rt.VarPre {
+				return false // a literal suffix / prefix b does not have: shapes differ
 			}
 		}
 		if a[i].Kind == rt.Lit && b[i].Kind != rt.Lit {
@@ -285,6 +293,14 @@ func c04(ctx *core.Ctx) {
 		bo := rt.DefaultBuild(router)
 		bo.Switched = ti%4 == 2 // the router was configured back and forth before use
 		c := rt.Build(t, bo)
+		if ti%4 == 1 {
+			// an adapted net/http middleware that hands a derived request on (r.WithContext), in front of every route
+			c.Filter(restful.HttpMiddlewareHandlerToFilter(func(next http.Handler) http.Handler {
+				return http.HandlerFunc(func(w http.ResponseWriter, r *http.Request) {
+					next.ServeHTTP(w, r.WithContext(context.WithValue(r.Context(), c04Key{}, 1)))
+				})
+			}))
+		}
 		rr := ctx.Rand(ti, "req")
 		var reqs []rt.Req
 		for qi := 0; qi < perTable; qi++ {
@@ -325,6 +341,11 @@ func judgeC04(ctx *core.Ctx, ti int, t *rt.Table, router, entry string, reqp *rt
 				}
 				full := rt.Full(s, rs)
 				tri, binds := rt.MatchFull(full, tokens)
+				if tri != rt.Yes && full.HasKind(rt.VarPre) {
+					// the route function DID run on a prefix{v} template: then the value is the text behind the prefix
+					tri, binds = rt.MatchFullLoose(full, tokens)
+					ctx.Count("prefix_variable_invocations", 1)
+				}
 				if tri != rt.Yes {
 					ctx.Count("unspecified_skipped", 1)
 					continue
@@ -477,8 +498,24 @@ func c14(ctx *core.Ctx) {
 			}
 		}
 		rr := ctx.Rand(ti, "req")
-		for qi := 0; qi < perTable; qi++ {
-			req := rt.GenReq(rr, t, router)
+		deepAt := -1
+		if ti%5 == 0 {
+			deepAt = perTable // one extra round of very deep paths below a tail wildcard
+		}
+		for qi := 0; qi < perTable+len(rt.DeepCounts); qi++ {
+			var req rt.Req
+			if qi >= perTable {
+				if deepAt < 0 {
+					break
+				}
+				var ok bool
+				if req, ok = rt.DeepReq(rr, t, rt.DeepCounts[qi-perTable]); !ok {
+					break
+				}
+				ctx.Count("deep_path_pairs", 1)
+			} else {
+				req = rt.GenReq(rr, t, router)
+			}
 			if withOptions && qi%2 == 0 {
 				req.Method = "OPTIONS"
 			}
